@@ -598,6 +598,65 @@ def h_threads(ctx, directions=None):
     return conc.pairs(ctx, menu, shared, judge, thorough=config.thorough())
 
 
+def h_7797_default_b64(ctx):
+    """The RFC 7797 entry points with a header that leaves "b64" at its default (absent, or true with "crit"): they are then plain JWS
+    functions, in both directions and mixed with the joserfc.jws ones, with the allow-list given either way."""
+    from joserfc import jws, rfc7797
+    alg, kind = ctx.choose("alg/key", scen.JWS_KINDS)
+    shape = ctx.choose("serialization", ["compact", "flattened", "general"])
+    b64m = ctx.choose("b64", ["absent", "true"])
+    producer, consumer = ctx.choose("producer/consumer", [("rfc7797", "rfc7797"), ("rfc7797", "jws"), ("jws", "rfc7797")])
+    given = ctx.choose("allow_list_given_as", ["algorithms", "registry"])
+    pname, payload = ctx.choose("payload", [x for x in payloads() if x[0] in ("json", "urlsafe", "binary", "empty")] or payloads()[:3])
+    if b64m == "true" and "jws" in (producer, consumer):
+        return Outcome("n/a:plain-jws-registry-does-not-know-b64", [], nontrivial=None)
+    if shape == "general" and producer == "rfc7797":
+        return Outcome("n/a:rfc7797-signs-one-member", [], nontrivial=None)
+    jwk = scen.key(kind, 0)
+    priv = A.jkey(jwk, "dict")
+    pub = A.jkey(jwk, "dict", private=(jwk["kty"] == "oct"))
+    prot = {"alg": alg, "typ": "plain"}
+    if b64m == "true":
+        prot.update({"b64": True, "crit": ["b64"]})
+    tag = f"{alg[:2] if alg != 'EdDSA' else alg}* {shape}"
+    what = f"{alg}/{kind} b64 {b64m}, made by {producer}, read by {consumer}, allow-list as {given}, payload {pname}"
+
+    def kw(mod):
+        if given == "algorithms":
+            return {"algorithms": [alg]}
+        return {"registry": (rfc7797.JWSRegistry if mod is rfc7797 else jws.JWSRegistry)(algorithms=[alg])}
+    pm = rfc7797 if producer == "rfc7797" else jws
+    cm = rfc7797 if consumer == "rfc7797" else jws
+    if shape == "compact":
+        r = call(pm.serialize_compact, dict(prot), payload, priv, **kw(pm))
+    elif shape == "flattened":
+        r = call(pm.serialize_json, {"protected": dict(prot)}, payload, priv, **kw(pm))
+    else:
+        r = call(pm.serialize_json, [{"protected": dict(prot)}], payload, priv, **kw(pm))
+    if not r.ok:
+        return Outcome(f"produce-failed:{alg}", [viol(f"signing fails [b64 left at its default]: {tag}", f"{what}: {r.exc!r}")], nontrivial=(alg, kind, shape, b64m, producer, consumer, given, pname))
+    token = r.value
+    vs = []
+    try:
+        if shape == "compact":
+            h, got = rjws.verify_compact(token, rjwk.public_of(jwk) if jwk["kty"] != "oct" else jwk)
+        else:
+            hs, got = rjws.verify_json(token, rjwk.public_of(jwk) if jwk["kty"] != "oct" else jwk)
+        if got != payload:
+            vs.append(viol(f"independent verifier reads another payload [b64 left at its default]: {tag}", f"{what}: {payload[:40]!r} -> {got[:40]!r}"))
+    except RefError as e:
+        vs.append(viol(f"independent verifier rejects the token [b64 left at its default]: {tag}", f"{what}: {e!r} token={str(token)[:200]}"))
+    if shape == "compact":
+        c = call(lambda: bytes(cm.deserialize_compact(token, pub, **kw(cm)).payload))
+    else:
+        c = call(lambda: bytes(cm.deserialize_json(copy.deepcopy(token), pub, **kw(cm)).payload))
+    if not c.ok:
+        vs.append(viol(f"own output does not verify [b64 left at its default]: {tag}", f"{what}: {c.exc!r}"))
+    elif c.value != payload:
+        vs.append(viol(f"round trip changes the payload [b64 left at its default]: {tag}", f"{what}: {payload[:40]!r} -> {c.value[:40]!r}"))
+    return Outcome(f"{'ok' if not vs else 'BAD'}:{alg}:{shape}:{b64m}", vs, nontrivial=(alg, kind, shape, b64m, producer, consumer, given, pname))
+
+
 _p2 = Part("ecdsa-leading-zero", h_ecdsa_lz, split_depth=1)
 _p3 = Part("general-multi-signer", h_multi_signer, split_depth=2)
 _p3.single_bucket_ok = True
@@ -607,6 +666,7 @@ _pc = Part("callers-allow-list-changed-between-calls", h_callers_list, split_dep
 _pc.single_bucket_ok = True
 PARTS = [
     _pc, _pt,
+    Part("rfc7797-functions-with-b64-left-at-its-default", h_7797_default_b64, split_depth=2),
     Part("keys-declaring-their-operation", h_declared, split_depth=2),
     Part("thread-schedules", h_threads, bound={"quick": 1, "thorough": 2}, split_depth=3, budget={"quick": 2000, "thorough": 3000}, engine="E3"),
     Part("roundtrip", h_roundtrip, bound={"quick": 0, "thorough": 0}, split_depth=2, budget={"quick": 1200, "thorough": 1500}),
